@@ -913,6 +913,10 @@ class DocGen:
                 fd, key, at = r.choice(history)
                 items.append(self.field(fd, depth, scope, history, force=(key, at)))
                 self.features.add("merged_repeat")
+            elif k < 0.66 and len(gs.poss(parent)) > 1:
+                x = self.exclusive_alias(parent, depth)
+                if x:
+                    items.append(x)
             elif k < 0.7:
                 items.append("__typename" if r.random() < 0.7 else "t: __typename")
             elif k < 0.86:
@@ -928,6 +932,35 @@ class DocGen:
         if not items:
             items.append("__typename")
         return "{ " + " ".join(items) + " }"
+
+    def exclusive_alias(self, parent, depth):
+        """One response key for DIFFERENT fields under type conditions on different object types
+        (valid: the parent types are distinct objects; the fields have the same response shape)."""
+        r, gs = self.rng, self.gs
+        objs = sorted(gs.poss(parent))
+        o1, o2 = r.sample(objs, 2)
+
+        def shape(ts):
+            t = parse_type(ts)
+            n = named(t)
+            return ts if n in gs.leafs else ts.replace(n, "<composite>")
+        pairs = [(f1, f2) for f1 in gs.fields[o1] for f2 in gs.fields[o2]
+                 if f1[0] != f2[0] and shape(f1[1]) == shape(f2[1])
+                 and not any(a[1].endswith("!") and a[2] is None for a in f1[2] + f2[2])]
+        if not pairs:
+            return None
+        f1, f2 = r.choice(pairs)
+        key = f"x{len(self.keymap)}"
+        self.keymap[key] = ("<exclusive>", "")
+        self.features.add("same_key_different_fields_on_exclusive_types")
+        self.used_fields.update((f1[0], f2[0]))
+
+        def sub(fd):
+            base = named(parse_type(fd[1]))
+            if base in gs.composites or base in gs.objects:
+                return " { __typename }" if depth <= 0 else " " + self.selset(base, depth - 1)
+            return ""
+        return f"... on {o1} {{ {key}: {f1[0]}{sub(f1)} }} ... on {o2} {{ {key}: {f2[0]}{sub(f2)} }}"
 
     def field(self, fd, depth, scope, history, force=None):
         r, gs = self.rng, self.gs
